@@ -62,6 +62,20 @@ def run(ctx):
                'the re-advertisement block sits in FSM state %s only, and the transient event (%s) is not latched until '
                'that state is reached: an event arriving in another state is lost (block triggers: %s)' % (
                    bstate, expr, tcanon))
+    # a pending (latched) event must run the block as soon as its state is reached -- whatever else holds there, in
+    # particular whether or not the receiver has been re-enabled in the meantime
+    from ..fsm import lit_atoms, assignments, holds
+    atoms_ = []
+    for l in blk.guard:
+        atoms_ += list(lit_atoms(l))
+    for t in trig:
+        if t.op != 'sig':
+            continue
+        name = t.canon()
+        missed = [asg for asg in assignments(atoms_, {name: True}) if not holds(blk.guard, asg)]
+        ctx.ob('C38.pending-event-served', 'HeaderPacketReceiver.block-fires@' + name, not missed, blk.loc,
+               'with the latched event %s pending the re-advertisement block must run whenever its state is reached; it does '
+               'not when %s' % (name, {k: v for k, v in (missed[0] if missed else {}).items() if k != name}))
     if bstate is not None:
         # the block's state must be reachable from every state on edges that do not need `enable`
         for st in fsm.states:
